@@ -1103,8 +1103,13 @@ public:
     static_assert(std::is_pointer_v<T_Rhs>, "Must be a pointer");
     static_assert(std::is_assignable_v<T&, T_Rhs>,
                   "Should assign pointers of compatible types.");
+    // Converting to the type that is stored may adjust the address (a pointer
+    // to a derived class given for a pointer to one of its bases): the address
+    // that is checked has to be the one that is stored
+    std::remove_cv_t<T> converted_val = nullptr;
+    converted_val = val;
     // Maybe a function pointer, so we need to cast
-    const void* cast_val = reinterpret_cast<const void*>(val);
+    const void* cast_val = reinterpret_cast<const void*>(converted_val);
     bool safe = sandbox.is_pointer_in_sandbox_memory(cast_val);
     detail::dynamic_check(
       safe,
@@ -1124,7 +1129,7 @@ public:
       "address with get_sandbox_function_address(sandbox, foo), and pass in "
       "the "
       "address\n ");
-    data = val;
+    data = converted_val;
   }
 
   inline tainted_opaque<T, T_Sbx> to_opaque()
@@ -1361,8 +1366,13 @@ public:
     static_assert(std::is_pointer_v<T_Rhs>, "Must be a pointer");
     static_assert(std::is_assignable_v<T&, T_Rhs>,
                   "Should assign pointers of compatible types.");
+    // Converting to the type that is stored may adjust the address (a pointer
+    // to a derived class given for a pointer to one of its bases): the address
+    // that is checked has to be the one that is stored
+    std::remove_cv_t<T> converted_val = nullptr;
+    converted_val = val;
     // Maybe a function pointer, so we need to cast
-    const void* cast_val = reinterpret_cast<const void*>(val);
+    const void* cast_val = reinterpret_cast<const void*>(converted_val);
     bool safe = sandbox.is_pointer_in_sandbox_memory(cast_val);
     detail::dynamic_check(
       safe,
